@@ -392,7 +392,7 @@ class Check:
 # ----------------------------------------------------------------------------
 # model/implementation comparison
 
-def run_cases(lines, name, impl_cmd=None, timeout=1800):
+def run_cases(lines, name, impl_cmd=None, timeout=1800, model_lines=None):
     """Write the case lines to work/cases/<name>.txt, run the implementation
     harness and the extracted model on them, return (impl dict, model dict)."""
     d = os.path.join(WORK, "cases")
@@ -405,7 +405,12 @@ def run_cases(lines, name, impl_cmd=None, timeout=1800):
         rc1, out1, err1 = 0, "", ""
     else:
         rc1, out1, err1 = run(impl_cmd + [path], timeout=timeout)
-    rc2, out2, err2 = run([os.path.join(BIN, "driver"), path, os.path.join(BIN, "codec")], timeout=timeout)
+    mpath = path
+    if model_lines is not None:      # the model evaluates a subset (cases too slow for the functional model are implementation-only)
+        mpath = os.path.join(d, name + ".model.txt")
+        with open(mpath, "w") as f:
+            f.write("\n".join(model_lines) + "\n")
+    rc2, out2, err2 = run([os.path.join(BIN, "driver"), mpath, os.path.join(BIN, "codec")], timeout=timeout)
     def parse(out):
         res = {}
         for l in out.splitlines():
